@@ -82,12 +82,45 @@ pub fn spec_signatures(s: &TypeSpec) -> Vec<&'static str> {
         out.push("copy_clone_enum_with_clone_method_and_type_parameter");
     }
     {
-        let tys: Vec<(&str, String)> = s.all_fields().map(|f| (f.ty.src.as_str(), erase_lifetimes(&f.ty.src))).collect();
-        'outer: for i in 0..tys.len() {
-            for j in i + 1..tys.len() {
-                if tys[i].0 != tys[j].0 && tys[i].1 == tys[j].1 {
-                    out.push("field_types_differ_only_in_lifetime");
-                    break 'outer;
+        // reference types `&'lt T` (also nested, e.g. inside Option<..>) with the same referent but different lifetimes
+        fn refs_of(ty: &str) -> Vec<(String, String)> {
+            let mut out = Vec::new();
+            let b: Vec<char> = ty.chars().collect();
+            let mut i = 0;
+            while i + 1 < b.len() {
+                if b[i] == '&' && b[i + 1] == '\'' {
+                    let mut j = i + 2;
+                    let mut lt = String::new();
+                    while j < b.len() && (b[j].is_alphanumeric() || b[j] == '_') {
+                        lt.push(b[j]);
+                        j += 1;
+                    }
+                    while j < b.len() && b[j] == ' ' {
+                        j += 1;
+                    }
+                    let mut referent = String::new();
+                    while j < b.len() && (b[j].is_alphanumeric() || b[j] == '_' || b[j] == ':') {
+                        referent.push(b[j]);
+                        j += 1;
+                    }
+                    out.push((lt, referent));
+                    i = j;
+                } else {
+                    i += 1;
+                }
+            }
+            out
+        }
+        let per_field: Vec<Vec<(String, String)>> = s.all_fields().map(|f| refs_of(&f.ty.src)).collect();
+        'outer: for i in 0..per_field.len() {
+            for j in i + 1..per_field.len() {
+                for (l1, t1) in &per_field[i] {
+                    for (l2, t2) in &per_field[j] {
+                        if t1 == t2 && l1 != l2 {
+                            out.push("field_types_differ_only_in_lifetime");
+                            break 'outer;
+                        }
+                    }
                 }
             }
         }
@@ -127,7 +160,7 @@ pub fn failure_matches(sig: &str, msg: &str) -> bool {
         "debug_enum_variant_tuple_style_without_name" => msg.contains("E0061"),
         "ordered_enum_repr_with_parenthesised_item" => msg.contains("expected `,`"),
         "copy_clone_enum_with_clone_method_and_type_parameter" => msg.contains("E0204"),
-        "field_types_differ_only_in_lifetime" => msg.contains("E0283") || msg.contains("E0204") || msg.contains("lifetime may not live long enough"),
+        "field_types_differ_only_in_lifetime" => msg.contains("E0283") || msg.contains("E0204") || msg.contains("E0308") || msg.contains("lifetime may not live long enough"),
         "debug_unsized_tail" => msg.contains("E0277"),
         "const_parameter_named_like_a_generated_binding" => msg.contains("E0308") || msg.contains("E0530") || msg.contains("E0005") || msg.contains("E0423") || msg.contains("E0532"),
         "user_item_named_like_an_internal_helper_type" => msg.contains("does not compile"),
